@@ -130,6 +130,61 @@ def _wrap_registries():
 
 _wrap_registries()
 
+
+
+class DoesNotReturn(BaseException):
+    """a value parser keeps asking an exhausted tokeniser for words (BaseException: `except Exception` in the parsers must not turn
+    the watchdog into a refusal)"""
+
+
+import exabgp.configuration.core.parser as coreparser  # noqa: E402
+
+EXHAUSTED_READS = 5000  # consecutive '' answers of a used-up Tokeniser before the watchdog calls it a loop
+_tok_get = coreparser.Tokeniser._get
+
+
+def _watched_get(self):
+    t = _tok_get(self)
+    if type(t) is str and t == '':
+        n = self.__dict__.get('sx_exhausted', 0) + 1
+        self.__dict__['sx_exhausted'] = n
+        if n > EXHAUSTED_READS:
+            self.__dict__['sx_exhausted'] = 0
+            raise DoesNotReturn('%d consecutive reads of the exhausted tokeniser' % n)
+    else:
+        self.__dict__['sx_exhausted'] = 0
+    return t
+
+
+coreparser.Tokeniser._get = _watched_get
+
+
+class _Alarm:
+    """wall-clock backstop for loops the tokeniser watchdog does not see: SIGALRM raises DoesNotReturn inside the code under test"""
+
+    def __init__(self, seconds):
+        self.seconds = seconds
+
+    def __enter__(self):
+        import signal
+        self.signal = signal
+
+        def fire(*_):
+            raise DoesNotReturn('no answer within %d s' % self.seconds)
+        try:
+            self.old = signal.signal(signal.SIGALRM, fire)
+            signal.alarm(self.seconds)
+        except ValueError:  # not the main thread
+            self.old = None
+        return self
+
+    def __exit__(self, *exc):
+        if self.old is not None:
+            self.signal.alarm(0)
+            self.signal.signal(self.signal.SIGALRM, self.old)
+        return False
+
+
 _CFG = []
 
 
@@ -155,6 +210,15 @@ def text_of(words):
 def parse_text(ctx, section, words, action='announce'):
     """words: list of str | tuple(pieces: str | numeral).  -> ('accept', [routes]) | ('refuse', message) | ('raise', exc)"""
     cfg = configuration()
+    try:
+        with _Alarm(60 if not ctx.sym else 150):
+            return _parse_text(ctx, cfg, section, words, action)
+    except DoesNotReturn as exc:
+        cfg.parser.tokeniser.clear()
+        return ('raise', exc)
+
+
+def _parse_text(ctx, cfg, section, words, action):
     try:
         if not ctx.sym:
             ok = cfg.partial(section, text_of(words), action)
@@ -840,6 +904,11 @@ def run_case(ctx, case_, shape, v, expect=None):
     info = {'text': text_of(words) if not ctx.sym else None, 'session': shape_name(shape)}
     out = parse_text(ctx, case_.section, words)
     ctx.note('class', out[0])
+
+    if out[0] == 'raise' and isinstance(out[1], DoesNotReturn):
+        ctx.cover('raised')
+        ctx.check('text-is-answered', False, sig='C18:%s:does-not-return' % kw, info=dict(info, watchdog=str(out[1])))
+        return ['hang']
 
     if out[0] == 'raise':
         ctx.cover('raised')
